@@ -171,6 +171,9 @@ func runC12(p *C12Plan) (*stats.Case, error) {
 	defer func() { s.Close() }()
 	urlOf := func(i int) string {
 		if p.Real {
+			if i%4 == 3 {
+				return fmt.Sprintf("%s/Hook/0", srv.URL) // differs from URL 0 by letter case only: a webhook of its own
+			}
 			return fmt.Sprintf("%s/hook/%d", srv.URL, i%4)
 		}
 		return fmt.Sprintf("http://hook.invalid/%d", i%4)
